@@ -12,7 +12,7 @@ m={
  "hooks":{"guard":"verif","enable":"go test -tags verif (the harness module /verif/harness replaces github.com/ExocoreNetwork/exocore with /repo and builds one test binary with -tags verif)",
           "baseline_off_cmd":"cd /repo && go test -vet=off -count=1 -timeout 25m ./...",
           "source_commits":hook_commits,"add_only":True},
- "engines":[{"name":"exoverif","path":"harness","serves_properties":sorted(spec.keys()),"kind_free_text":"Go module: pgregory.net/rapid v1.3.0 stateful property tests (and native go fuzz targets in the thorough tier) driving the real ExocoreApp through InitChain/BeginBlock/DeliverTx/EndBlock/Commit with reference models, raw store observers and a mirror of the CometBFT validator set"}],
+ "engines":[{"name":"exoverif","path":"harness","serves_properties":sorted(spec.keys()),"kind_free_text":"Go module: pgregory.net/rapid v1.3.0 stateful property tests driving the real ExocoreApp through InitChain/BeginBlock/DeliverTx/EndBlock/Commit with reference models, raw store observers and a mirror of the CometBFT validator set"}],
  "checks":[], "not_applicable":[],
  "notes":"Driver: ./check <id> --tier quick|thorough [--replay f]. exit 0 held / 1 VIOLATION / 2 inconclusive. Known findings: known_findings.txt. See DESIGN.md."
 }
